@@ -411,8 +411,9 @@ var ipv6Text = rapid.Custom(func(t *rapid.T) string {
 
 // IPCase is a generated IP text with its number of edits.
 type IPCase struct {
-	S     string
-	Edits int
+	S         string
+	Edits     int
+	BaseValid bool // the text before the edits was accepted by the reference parser
 }
 
 // IPText generates IPv4/IPv6 texts with 0..2 edits.
@@ -429,7 +430,8 @@ var ipText = rapid.Custom(func(t *rapid.T) IPCase {
 		s = ipv6Text.Draw(t, "v6")
 	}
 	out, n := Edits(t, s, 2, ipEditAlphabet)
-	return IPCase{S: out, Edits: n}
+	_, err := netip.ParseAddr(s)
+	return IPCase{S: out, Edits: n, BaseValid: err == nil}
 })
 
 var ipish = rapid.Custom(func(t *rapid.T) string {
@@ -472,7 +474,8 @@ var ipPortText = rapid.Custom(func(t *rapid.T) IPCase {
 		s = "[[" + c.S + "]]:" + p
 	}
 	out, n := Edits(t, s, 1, ipEditAlphabet)
-	return IPCase{S: out, Edits: c.Edits + n}
+	_, err := netip.ParseAddrPort(s)
+	return IPCase{S: out, Edits: n, BaseValid: err == nil}
 })
 
 // ---------------------------------------------------------------------------
